@@ -20,6 +20,18 @@ fn menu() -> Vec<Expr> {
     ]
 }
 
+fn special_destinations() -> Vec<Expr> {
+    let mut v = vec![];
+    for d in ["/dev/null", "/dev/stdout", "/dev/stderr", "-"] {
+        for a in [Action::FPrint(d.into()), Action::FPrint0(d.into()), Action::FPrintf(d.into(), vec![Fmt::Field(Field::Name), Fmt::Special(Special::Newline)])] {
+            v.push(Expr::Action(a.clone()));
+            v.push(Expr::and(Expr::Test(Test::Name("x".into())), Expr::Action(a.clone())));
+            v.push(Expr::or(Expr::Test(Test::Name("x".into())), Expr::not(Expr::Action(a))));
+        }
+    }
+    v
+}
+
 fn records() -> Vec<Record> {
     let mut a = Record::distinct(1_700_000_000);
     a.name = "x".into();
@@ -53,6 +65,9 @@ pub fn check(tree: &Expr, acc: &mut Acc) {
 }
 
 pub fn check_with(tree: &Expr, threads: Option<u32>, acc: &mut Acc) {
+    if tree.depth() > 20 {
+        speclib::report::enter_case(|| format!("tree of depth {} with {} leaves: {}…", tree.depth(), tree.leaves(), tree.show().chars().take(120).collect::<String>()));
+    }
     acc.states += 1;
     acc.transitions += 1;
     acc.validated += 1;
@@ -238,6 +253,8 @@ pub fn run(ctx: &Ctx) -> i32 {
             check_with(&Expr::and(t.clone(), Expr::Action(Action::Print0)), th, acc);
         }
     }));
+    let sp = special_destinations();
+    acc = acc.merge(speclib::report::par_items(&sp, |t, acc| check(t, acc)));
     let mut h = Acc::new();
     histories(&mut h);
     acc = acc.merge(h);
